@@ -76,15 +76,22 @@ impl Drop for Guard {
     }
 }
 
+/// The anchor of the wrapper node being read, handed out once.
+///
+/// The frame belongs to the wrapper whose `deserialize_newtype_struct` call pushed it, and that
+/// wrapper asks for it before it reads its payload. A wrapper of the same kind further down
+/// that is read from serde's buffered content (`flatten`, untagged and internally tagged
+/// enums) gets no frame of its own; it must not find the enclosing wrapper's anchor here and
+/// take it for its own.
 fn current_anchor_id(kind: AnchorKind) -> Option<usize> {
     STATE.with(|state| {
         state
-            .borrow()
+            .borrow_mut()
             .stack
-            .iter()
+            .iter_mut()
             .rev()
             .find(|(k, _)| *k == kind)
-            .and_then(|(_, id)| *id)
+            .and_then(|(_, id)| id.take())
     })
 }
 
